@@ -51,6 +51,17 @@ CHECKS = {
         note="Trusted: Coq kernel + vm_compute; the transcription of trace_trampoline (validated by the correspondence itself); hand transcription of "
              "_sys_tracer/_make_composed_tracer; harness. Mid-run installation and program results are decided by the oracle, not by a theorem; handlers are observing.",
         ref="DESIGN.md section 7 C09"),
+    "C14": dict(
+        technique="Coq proof (fold invariant over the two Counters of fix_positions, any number of specs/occurrences) with refutation witnesses + in-coqc correspondence of both functions + placement-record oracle",
+        text="C14_cols_partial: for every number of specs with arbitrary length changes, every application order and every multiset of occurrences on a "
+             "line, fix_positions returns each occurrence's column in the fully transformed line provided sorting the recorded columns keeps the true "
+             "order; C14_cols_refuted / C14_cols_tie_refuted show the two ways the side condition fails on the unchanged code (recorded as known "
+             "findings). model/Augment.v transcribes both replace_tokens_and_get_augmented_positions and fix_positions and is compared with "
+             "syntax_augmentation.py on every replacement pass and every line of 300 generated sources (about 1200 evaluations); the oracle compares "
+             "the preprocessed text with textual replacement and get_augmentations over all nodes with the generator's placement record.",
+        note="Trusted: Coq kernel + vm_compute; hand transcription (validated by correspondence); Python's tokenizer and the parser's column conventions "
+             "are inputs; the text-replacement half of the property and the node lookup by column are decided by correspondence and oracle, not by a theorem.",
+        ref="DESIGN.md section 7 C14"),
     "C15": dict(
         technique="Coq proof (list/association reasoning over the scaffold of tracer.exec) on a transcribed model + in-coqc correspondence + function-body reference oracle",
         text="C15_result_partial (the returned mapping, the caller's mapping and globals equal those of running the program's bindings as a function body), "
